@@ -88,8 +88,21 @@ def install(E, inline_types=(), target=None, adversarial=False):
             s.tokens.append(("map" if meth == "write_map" else "array", len_of(E_, args[1])))
         elif meth == "write_unsigned_integer":
             s.tokens.append(("uint", z3.simplify(deref(E_, args[1]).t)))
-        elif meth in ("write_negative_integer", "write_negative_integer_sz"):
-            s.tokens.append(("nint", deref(E_, args[1]).t))
+        elif meth == "write_negative_integer":
+            # cbor_event: argument (-value - 1) as u64 in i64 arithmetic (overflow-checked in the dev profile); the item denotes -1 - argument
+            v = deref(E_, args[1]).t
+            if E_.choose([v > -(1 << 63), v == -(1 << 63)], "negate i64") == 1:
+                raise PathAbort("panic", "attempt to negate with overflow (cbor_event write_negative_integer)")
+            u = (-v - 1) % (1 << 64)
+            s.tokens.append(("nint", z3.simplify(-1 - u), None))
+        elif meth == "write_negative_integer_sz":
+            # cbor_event: (-value - 1).try_into::<u64>() or Err(InvalidNint); written with the GIVEN width
+            v = deref(E_, args[1]).t
+            u = -v - 1
+            if E_.choose([z3.And(u >= 0, u < (1 << 64)), z3.Or(u < 0, u >= (1 << 64))], "nint range") == 1:
+                return err("InvalidNint")
+            sz = args[2]
+            s.tokens.append(("nint", v, sz.variant if isinstance(sz, VEnum) else repr(sz)))
         elif meth in ("write_bytes", "write_raw_bytes", "write_text"):
             s.tokens.append(({"write_bytes": "bytes", "write_text": "text", "write_raw_bytes": "raw"}[meth], E_.as_u(args[1])))
         elif meth == "write_tag":
@@ -103,6 +116,20 @@ def install(E, inline_types=(), target=None, adversarial=False):
             raise Unsupported("serializer method " + meth)
         return ok(args[0])
     E.extra_intrinsics[r"cbor_event::se::Serializer::<.*?>::write_\w+(::<.*>)?$"] = ser_write
+
+    def write_bounded(E_, c, args):
+        s_ = deref(E_, args[0])
+        if not isinstance(s_, VSer):
+            return NotImplemented
+        s_.tokens.append(("bytes", E_.as_u(args[1])))
+        return ok(args[0])
+    E.extra_intrinsics[r"(^|::)write_bounded_bytes::<.*>$"] = write_bounded
+
+    def sz_canonical(E_, c, args):
+        v = args[0].t
+        i = E_.choose([v <= 23, z3.And(v > 23, v < 0x100), z3.And(v >= 0x100, v < 0x10000), z3.And(v >= 0x10000, v < (1 << 32)), v >= (1 << 32)], "Sz::canonical")
+        return VEnum("Sz", ["Inline", "One", "Two", "Four", "Eight"][i], [])
+    E.extra_intrinsics[r"(^|::)Sz::canonical$"] = sz_canonical
 
     def nested_serialize(E_, c, args):
         m = re.match(r"^<(.*) as (?:cbor_event::)?(?:se::)?Serialize>::serialize", c)
